@@ -130,7 +130,37 @@ def m_next_if(eng, st, fr, t, name, rname, args):
     return out
 
 
+def m_next_if_eq(eng, st, fr, t, name, rname, args):
+    """Peekable::next_if_eq(&expected): next_if(|item| item == expected) on the abstract stream (variant-level comparison:
+    the items of the abstract stream are token variants with symbolic payloads, compared structurally)"""
+    s = _stream(st)
+    head = s[0] if s else UNKNOWN
+    if head == END:
+        _ev(st, fr, t, "next_if", END, (False,))
+        return mk_option(None)
+    if head == UNKNOWN:
+        _ev(st, fr, t, "next_if", UNKNOWN, ("eq",))
+        return st.fresh(("next_if_eq-unknown",))
+    exp = eng.resolve(st, args[1])
+    n = 0
+    while isinstance(exp, RefV) and n < 4:
+        exp = eng.resolve(st, load(Loc(exp.cell, exp.path)))
+        n += 1
+    same = struct_eq(eng, st, head, exp)
+    if same is True:
+        h2 = _pop(st)
+        _ev(st, fr, t, "consume", item_name(h2), ("next_if",))
+        st.extra.setdefault("consumed", []).append(item_name(h2))
+        return mk_option(h2)
+    if same is False:
+        _ev(st, fr, t, "next_if", item_name(head), (False,))
+        return mk_option(None)
+    _ev(st, fr, t, "next_if", item_name(head), ("undecided",))
+    return st.fresh(("next_if_eq-undecided",))
+
+
 STREAM_MODELS = {
+    "core::iter::Peekable::next_if_eq": m_next_if_eq,
     "core::iter::Peekable::peek": m_peek,
     "<core::iter::Peekable<I> as core::iter::Iterator>::next": m_next,
     "core::iter::Peekable::next_if": m_next_if,
